@@ -150,7 +150,9 @@ func runOp(em *emitter, g *gw.GW, mono *fakesvc.Net, w *world.World, op *world.O
 		}
 		em.emit(map[string]interface{}{"ev": "Plan", "levels": levels(p), "err": p.Err, "nsteps": len(p.Roots), "steps": steps, "scrub": scrub})
 	}
-	_ = qcalls
+	for _, qc := range qcalls {
+		em.emit(map[string]interface{}{"ev": "QCall", "svc": qc.URL, "n": qc.N, "dup": qc.Dup})
+	}
 	for _, c := range calls {
 		ce := callEv{Ev: "Call", Svc: c.Svc, Call: c.Call, N: c.Batch, Reqs: []map[string]interface{}{}}
 		seen := map[string]bool{}
@@ -264,12 +266,17 @@ func cmdGen(args []string) {
 			}
 			gws = append(gws, g)
 		}
+		var prev *world.Op
 		for k := 0; k < *ops; k++ {
 			kind := "query"
-			if w.Types["Mutation"] != nil && rng.Intn(5) == 0 {
+			if w.Types["Mutation"] != nil && (rng.Intn(5) == 0 || cfg.Off["queries"]) {
 				kind = "mutation"
 			}
 			op := world.GenOp(rng, w, cfg, kind)
+			if prev != nil && rng.Intn(8) == 0 {
+				op = prev // the same operation again (plan reuse, de-duplication bookkeeping)
+			}
+			prev = op
 			for gi, g := range gws {
 				var m *fakesvc.Net
 				if gi == 0 {
